@@ -287,7 +287,8 @@ func mayAuth(c *Conn) bool {
 //@   ensures c.state != old(c.state) ==> __called("Session.Login") && !__failed("Session.Login")
 
 //@ func (c *Conn) handleAuthenticate(tag string, dec *imapwire.Decoder) (err error)
-//@   props C04:post,pre@call
+//@   props C04:post,pre@call,callsite
+//@   callsite Reader.ReadLine requires false
 //@   requires tag != ""
 //@   ensures err == nil ==> __ghost("tagged") == old(__ghost("tagged"))+1
 //@   ensures err != nil ==> __ghost("tagged") == old(__ghost("tagged")) || __failed("writeCapabilityOK")
